@@ -35,7 +35,16 @@ RULE = ("Hypothesis draws small TT-tensors (d 2..4, mode sizes 1..4(5), ranks up
         "against the dense reference of the cores as they are NOW; non-trivial = a distribution-changing update was audited.  "
         "GRID SAMPLERS: random shapes with mode sizes up to 80 (200) and m free or q*n_k, q*n_k+-1; `lhs_all_n` enumerates EVERY mode "
         "size 1..128 (400) with m in {1, k-1, k, k+1, 2k-1, 2k, 2k+1, 3k, 4k, 7k, 10k, ...}, 3 int seeds and 4 Generator objects, both "
-        "int and float spellings of n and m; `tt_all_n` enumerates sample_tt for every mode size 1..128 (200) with r = k and r = 2k.")
+        "int and float spellings of n and m; `tt_all_n` enumerates sample_tt for every mode size 1..128 (200) with r = k and r = 2k.  "
+        "SCALED TENSORS (`square_forced`, `chains`, `structure_tt`, `gof`, `unique_args`): half of the sample_square tensors are deep "
+        "(d 4..6 (7), modes 1..3) and every core k is multiplied by 2**x_k, |x_k| in {40, 120, 200, 250} (+-3 jitter), patterns all-up / "
+        "all-down / alternating / one core / random signs - each core is an ordinary finite array, the scaled tensor itself may be as "
+        "far as 2**+-1500 outside the double range; the reference is the UNSCALED base tensor (the squared distribution is invariant).  "
+        "`sample` only gets scales whose total product stays in range (nn_scaled: |x_k| <= 60, d <= 4), because its marginal vectors "
+        "carry the un-normalised product.  UNIQUE ARGUMENTS (`unique_args`): unique=True (explicit / default / positional) with m_fact in "
+        "{default, 1, 2, 5, 50}, max_rep in {default, 100, 10, 0, 1, 2, 3}, m as int / float / np.int64 / np.float64, int seeds and Generator "
+        "objects reused by 1..3 consecutive calls, on tensors peaked by damping slice i of core k with 2**(-a_k i); with max_rep <= 3 "
+        "m is free (1..size+2, also more than the tensor has entries), otherwise m <= n_eff/2; non-trivial = m >= 2 rows were returned.")
 TOLERANCES = ("sample: |prod p - T[i]/S| <= 4 d K eps rho T[i]/S (+ n_0 unsert/S for unsert > 0), K = 32(d+sum r+sum n), rho = max "
               "abs-majorant/value ratio over all prefix marginals (1 for non-negative cores, so zero entries are exact); "
               "sample_square: eta = K eps prod||G_k||_F/||T||_F, |prod p - P| <= 4 eta (sqrt(P)+P) + 4 eta^2; every recorded p: finite, "
@@ -47,7 +56,14 @@ ASSUMPTIONS = ["d >= 2 (library-wide precondition)",
                "sample with unsert > 0: targets whose first-mode marginal is zero are skipped (the code continues with 0/0 there, the "
                "property does not define that case); random-draw sub-checks use unsert=0 on such tensors",
                "sample_square: exactly-zero tensors and eta > 1e-7 (cancellation-dominated) are labelled and skipped",
-               "sample_square(unique=True): m <= half the number of entries with probability >= 1/(4 size), so the retry logic terminates quickly",
+               "sample_square(unique=True) with more than 3 restarts allowed: m <= half the number of entries with probability >= 1/(4 size), "
+               "so the retry logic terminates quickly; with max_rep <= 3 any m (the work is bounded by 2**(max_rep+2) m_fact m <= 3000 rows)",
+               "sample_square(unique=True) may give up with ValueError 'Can not generate the required number of samples' (the only accepted "
+               "exception); this is rejected only when already the first round of m_fact*m i.i.d. rows hits the m most probable entries with "
+               "probability >= 1 - 1e-12 (independent of how max_rep counts restarts and of how m_fact grows between them)",
+               "scaled sample_square tensors: |x_k| <= 253 per core on top of the base family (`scaled`: another 2**+-30), so products of two "
+               "neighbouring cores stay far inside the double range - the stabilised sweep never sees more than that",
+               "m_fact is an int (documented type); float m_fact is not exercised",
                "float_cf (documented as 'TODO: check') is not exercised",
                "history: the caller's updates keep the tensor inside the domain by construction for `sample` (the positive path of the "
                "cores is never zeroed; signed-core tensors only get whole-slice updates); for `sample_square` a history ends (labelled) "
@@ -208,7 +224,14 @@ def nn_specs(draw, tier, size_max=None, families=NN_FAMILIES):
                           for k in range(1, d) if r[k] >= 2 for _ in range(draw(st.integers(1, 2)))]
         return spec
     if fam == "nn_scaled":
-        spec["exp"] = [draw(st.integers(-20, 20)) for _ in range(d)]
+        # `sample` carries the product of the core scales un-normalised through its marginal vectors, so only scales whose total
+        # product (d <= 4: at most 2**+-240) stays far inside the double range are in its domain
+        e_max = draw(st.sampled_from([20, 20, 60]))
+        pat = draw(st.sampled_from(["free", "free", "up", "down", "alt"]))
+        if pat == "free":
+            spec["exp"] = [draw(st.integers(-e_max, e_max)) for _ in range(d)]
+        else:
+            spec["exp"] = [{"up": e_max, "down": -e_max, "alt": e_max * (-1) ** k}[pat] for k in range(d)]
     spec["zfrac"] = draw(st.sampled_from([0.0, 0.0, 0.15, 0.4]))
     spec["zeros"] = [[draw(st.sampled_from(["slice", "left", "right"])), draw(st.integers(0, d - 1)), draw(st.integers(0, 7))]
                      for _ in range(draw(st.integers(0, 3)))]
@@ -406,14 +429,73 @@ SQ_FAMILIES = ("smallint", "dyadic", "float", "gauss", "scaled", "rank_deficient
 
 
 @st.composite
-def sq_specs(draw, tier, size_max=None):
+def deep_shapes(draw, tier, size_max=None):
+    """d 4..6 (7 thorough) with small modes: the depth at which a product of per-core scales leaves the double range."""
     kw = sizes(tier)
-    return draw(gen.tt_specs(shape=draw(small_shapes(tier, size_max)), r_max=kw["r_max"], families=SQ_FAMILIES, entries_max=400))
+    d = draw(st.integers(4, 6 if tier == "quick" else 7))
+    n = [draw(st.sampled_from([1, 2, 2, 2, 3])) for _ in range(d)]
+    return gen._cap_shape(n, size_max or kw["size_max"])
+
+
+@st.composite
+def sq_specs(draw, tier, size_max=None, deep=False):
+    kw = sizes(tier)
+    shape = draw(deep_shapes(tier, size_max)) if deep else draw(small_shapes(tier, size_max))
+    return draw(gen.tt_specs(shape=shape, r_max=kw["r_max"], families=SQ_FAMILIES, entries_max=400))
+
+
+SCALE_E = (40, 120, 200, 250)
+SCALE_PATTERNS = ("up", "down", "alt", "one", "signs")
+
+
+@st.composite
+def scale_specs(draw, d, none_weight=2):
+    """Per-core power-of-two scales 2**x_k, |x_k| <= 250: every scaled core is a perfectly valid finite array and the squared
+    distribution does not depend on the scales (they are exact), but the scaled TENSOR may be far outside the double range."""
+    pat = draw(st.sampled_from(["none"] * none_weight + list(SCALE_PATTERNS)))
+    if pat == "none":
+        return {"pat": "none", "exp": [0] * d}
+    e = draw(st.sampled_from(SCALE_E))
+    if pat == "up":
+        exp = [e] * d
+    elif pat == "down":
+        exp = [-e] * d
+    elif pat == "alt":
+        s0 = draw(st.sampled_from([1, -1]))
+        exp = [s0 * e * (-1) ** k for k in range(d)]
+    elif pat == "one":
+        exp = [0] * d
+        exp[draw(st.integers(0, d - 1))] = e * draw(st.sampled_from([1, -1]))
+    else:
+        exp = [e * draw(st.sampled_from([1, -1])) for _ in range(d)]
+    if draw(st.booleans()):
+        exp = [max(-250, min(250, x + draw(st.integers(-3, 3)))) for x in exp]
+    return {"pat": pat, "e": e, "exp": exp}
+
+
+@st.composite
+def sq_scaled(draw, tier, size_max=None, none_weight=2):
+    """(spec, scale): shallow tensors (d 2..4) or deep ones (d 4..6) together with a scale pattern."""
+    deep = draw(st.booleans())
+    spec = draw(sq_specs(tier, size_max, deep=deep))
+    return spec, draw(scale_specs(len(spec["n"]), none_weight))
+
+
+def apply_scale(ctx, Y, scale, layout="C"):
+    """The tensor handed to the library: core k of the base tensor times 2**x_k (exact), in the memory layout of the base."""
+    if scale is None or scale["pat"] == "none":
+        ctx.label("scale:none")
+        return Y
+    ctx.label("scale:" + scale["pat"], f"scale_e:{scale['e']}", "d>=5" if len(Y) >= 5 else "d<5")
+    if abs(sum(scale["exp"])) > 1000:
+        ctx.label("scaled_tensor_outside_double_range")
+    return [gen.relayout(G * 2.0 ** x, layout) for G, x in zip(Y, scale["exp"])]
 
 
 @st.composite
 def square_forced_cases(draw, tier):
-    return {"Y": draw(sq_specs(tier)), "unique_spelling": draw(st.booleans())}
+    spec, scale = draw(sq_scaled(tier))
+    return {"Y": spec, "scale": scale, "unique_spelling": draw(st.booleans())}
 
 
 def sq_ref_labelled(ctx, Y):
@@ -430,10 +512,13 @@ def sq_ref_labelled(ctx, Y):
     return ref
 
 
-def sq_prepare(ctx, spec):
+def sq_prepare(ctx, spec, scale=None):
+    """(tensor for the library, reference).  The reference (dense tensor, eta, tolerances) is that of the UNSCALED base tensor:
+    T[i]^2/||T||^2 is invariant under non-zero factors on the cores and power-of-two factors commute with every rounding."""
     Y = gen.build_tt(spec)
     ctx.label(*gen.spec_labels(spec), f"d=={len(spec['n'])}")
-    return Y, sq_ref_labelled(ctx, Y)
+    ref = sq_ref_labelled(ctx, Y)
+    return apply_scale(ctx, Y, scale, spec.get("layout", "C")), ref
 
 
 def forced_square_run(ctx, Y, n, ref, kw):
@@ -473,7 +558,7 @@ def forced_square_run(ctx, Y, n, ref, kw):
 def prop_square_forced(case, ctx):
     spec = case["Y"]
     n = spec["n"]
-    Y, ref = sq_prepare(ctx, spec)
+    Y, ref = sq_prepare(ctx, spec, case.get("scale"))
     if ref is None:
         return
     # unique=True with m = 1 and m_fact = 1 draws exactly one row as well: the same distribution is claimed
@@ -485,13 +570,20 @@ def prop_square_forced(case, ctx):
     ctx.nontrivial(nontrivial_tt(spec) and done > 0)
 
 
+M_FACTS = (None, None, 1, 1, 2, 5, 50)          # None = the default of the signature (5)
+
+
 # =========================================================================================== m > 1: recorded chains of a real generator
 
 @st.composite
 def chain_cases(draw, tier):
     which = draw(st.sampled_from(["sample", "square"]))
-    Y = draw(nn_specs(tier)) if which == "sample" else draw(sq_specs(tier))
-    return {"which": which, "Y": Y, "m": draw(st.integers(1, 12 if tier == "quick" else 40)),
+    scale = None
+    if which == "sample":
+        Y = draw(nn_specs(tier))
+    else:
+        Y, scale = draw(sq_scaled(tier))
+    return {"which": which, "Y": Y, "scale": scale, "m": draw(st.integers(1, 12 if tier == "quick" else 40)),
             "gen": draw(st.sampled_from(SEED_KINDS[2:])), "seed": draw(gen.seeds), "default_unsert": draw(st.booleans())}
 
 
@@ -574,7 +666,7 @@ def prop_chains(case, ctx):
         tolP = 4 * d * K * EPS * ref["rho"] * P + n[0] * u / ref["S"] * (1 + 1e-9)
         name = "sample"
     else:
-        Y, ref = sq_prepare(ctx, spec)
+        Y, ref = sq_prepare(ctx, spec, case.get("scale"))
         if ref is None:
             return
         I = ctx.lib(teneva.sample_square, Y, m, False, g)
@@ -604,6 +696,7 @@ def history_cases(draw, tier):
              for _ in range(draw(st.integers(1, 3)))]
     return {"which": which, "Y": Y, "steps": steps, "m": draw(st.integers(1, 8 if tier == "quick" else 30)),
             "unique": draw(st.booleans()), "unique_spelling": draw(st.booleans()), "unsert": draw(st.sampled_from([0.0, 0.0, None])),
+            "m_fact": draw(st.sampled_from(M_FACTS)),
             "kind": draw(st.sampled_from(SEED_KINDS)), "seed": draw(gen.seeds)}
 
 
@@ -682,7 +775,8 @@ def history_real_call(ctx, case, which, Ycall, n, ref, mkseed):
     if case["unique"]:
         n_eff = int(np.sum(P >= 1.0 / (4 * P.size)))
         mu = min(m, max(1, n_eff // 2))
-        I = ctx.lib(teneva.sample_square, Ycall, mu, seed=arg)
+        kw = {} if case.get("m_fact") is None else {"m_fact": case["m_fact"]}
+        I = ctx.lib(teneva.sample_square, Ycall, mu, seed=arg, **kw)
         check_index_array(ctx, I, mu, n, "sample_square(unique=True)")
         ctx.check(len({tuple(row) for row in I.tolist()}) == mu, "sample_square(unique=True) returned repeated rows", rows=I, m=mu)
     else:
@@ -735,9 +829,10 @@ def prop_history(case, ctx):
 
 @st.composite
 def structure_tt_cases(draw, tier):
-    return {"Ynn": draw(nn_specs(tier)), "Ysq": draw(sq_specs(tier)), "m": draw(st.integers(1, 50)), "mu": draw(st.integers(1, 50)),
+    Ysq, scale = draw(sq_scaled(tier))
+    return {"Ynn": draw(nn_specs(tier)), "Ysq": Ysq, "scale": scale, "m": draw(st.integers(1, 50)), "mu": draw(st.integers(1, 50)),
             "m_float": draw(st.booleans()), "kind": draw(st.sampled_from(SEED_KINDS)), "seed": draw(gen.seeds),
-            "default_unsert": draw(st.booleans())}
+            "default_unsert": draw(st.booleans()), "m_fact": draw(st.sampled_from(M_FACTS))}
 
 
 def prop_structure_tt(case, ctx):
@@ -766,20 +861,27 @@ def prop_structure_tt(case, ctx):
 
     spec = case["Ysq"]
     n = spec["n"]
-    Y, ref = sq_prepare(ctx, spec)
+    Y, ref = sq_prepare(ctx, spec, case.get("scale"))
     if ref is None:
         return
     P, tol = ref["P"], ref["tol"]
-    I = ctx.lib(teneva.sample_square, Y, marg, False, make_seed(case["kind"], case["seed"]))
+    seed = make_seed(case["kind"], case["seed"])
+    rec = Recorder(seed) if not isinstance(seed, int) else None
+    I = ctx.lib(teneva.sample_square, Y, marg, False, seed if rec is None else rec)
     check_index_array(ctx, I, m, n, "sample_square(unique=False)")
     sharp = ref["eta"] <= 1e-10         # then P <= 2 tol means P <= 64 eta^2 < 1e-18: drawing such a row is a < 1e-15 event
     bad = P[tuple(I.T)] <= 2 * tol[tuple(I.T)]
     ctx.check(not (sharp and np.any(bad)), "sample_square returned a multi-index whose entry is zero (probability below 1e-18)",
               row=I[int(np.argmax(bad))])
+    if rec is not None:
+        audit_recorded(ctx, "sample_square", I, rec, m, n, P, tol, Kc(Y))
     n_eff = int(np.sum(P >= 1.0 / (4 * P.size)))
     mu = min(case["mu"], max(1, n_eff // 2))
     muarg = float(mu) if case["m_float"] else mu
     unique_kw = {} if case["seed"] % 2 else {"unique": True}         # unique=True is also the default
+    if case.get("m_fact") is not None:
+        unique_kw["m_fact"] = case["m_fact"]
+    ctx.label(f"m_fact:{case.get('m_fact')}")
     I = ctx.lib(teneva.sample_square, Y, muarg, seed=make_seed(case["kind"], case["seed"]), **unique_kw)
     check_index_array(ctx, I, mu, n, "sample_square(unique=True)")
     ctx.check(len({tuple(row) for row in I.tolist()}) == mu, "sample_square(unique=True) returned repeated rows", rows=I, m=mu)
@@ -787,6 +889,109 @@ def prop_structure_tt(case, ctx):
     ctx.check(not (sharp and np.any(bad)), "sample_square(unique=True) returned a multi-index whose entry is zero", row=I[int(np.argmax(bad))])
     ctx.label("unique_m>=2" if mu >= 2 else "unique_m==1")
     ctx.nontrivial(nontrivial_tt(spec))
+
+
+# =========================================================================================== unique squared sampling: optional arguments
+
+ERR_CANNOT = "Can not generate the required number of samples"
+MAX_REPS = (None, None, 100, 10, 0, 1, 2, 3)     # None = the default of the signature (100)
+M_KINDS = ("int", "int", "float", "np_int", "np_float")
+DRAW_BUDGET = 3000                                # candidate rows the library may have to draw in one call (Python loop per row)
+
+
+@st.composite
+def unique_cases(draw, tier):
+    """unique=True with the documented optional arguments m_fact / max_rep on tensors whose squared distribution is peaked
+    (slice i of core k damped by 2**(-a_k i)), so that i.i.d. draws collide."""
+    spec, scale = draw(sq_scaled(tier, none_weight=6))
+    d = len(spec["n"])
+    return {"Y": spec, "scale": scale, "peak": [draw(st.sampled_from([0, 0, 1, 1, 2, 3])) for _ in range(d)],
+            "m": draw(st.one_of(st.integers(1, 12), st.integers(1, 70))), "m_kind": draw(st.sampled_from(M_KINDS)),
+            "m_fact": draw(st.sampled_from(M_FACTS)), "max_rep": draw(st.sampled_from(MAX_REPS)),
+            "spelling": draw(st.sampled_from(["kw", "kw_default_unique", "positional"])),
+            "kind": draw(st.sampled_from(SEED_KINDS)), "seed": draw(gen.seeds), "repeat": draw(st.integers(1, 3))}
+
+
+def m_arg(m, kind):
+    return {"int": int, "float": float, "np_int": np.int64, "np_float": np.float64}[kind](m)
+
+
+def call_unique(ctx, Y, marg, seed, m_fact, max_rep, spelling):
+    """sample_square(unique=True) in one of its spellings.  Returns the array, or None for the one documented way of giving up
+    (ValueError 'Can not generate the required number of samples'); anything else raised is a failure of the property."""
+    def run():
+        try:
+            if spelling == "positional":
+                args = [Y, marg, True, seed] + ([5 if m_fact is None else m_fact] if (m_fact is not None or max_rep is not None) else [])
+                return teneva.sample_square(*(args + ([max_rep] if max_rep is not None else [])))
+            kw = {} if spelling == "kw_default_unique" else {"unique": True}
+            if m_fact is not None:
+                kw["m_fact"] = m_fact
+            if max_rep is not None:
+                kw["max_rep"] = max_rep
+            return teneva.sample_square(Y, marg, seed=seed, **kw)
+        except ValueError as e:
+            if ERR_CANNOT in str(e):
+                return None
+            raise
+    run.__name__ = "sample_square"
+    return ctx.lib(run)
+
+
+def prop_unique_args(case, ctx):
+    spec = case["Y"]
+    n = spec["n"]
+    Yb = gen.build_tt(spec)
+    for G, a in zip(Yb, case["peak"]):
+        G *= (2.0 ** (-a * np.arange(G.shape[1])))[None, :, None]       # in place: keeps the memory layout of the family
+    ctx.label(*gen.spec_labels(spec), f"d=={len(n)}", f"peak:{max(case['peak'])}")
+    ref = sq_ref_labelled(ctx, Yb)
+    if ref is None:
+        return
+    Y = apply_scale(ctx, Yb, case.get("scale"), spec.get("layout", "C"))
+    P, tol = ref["P"], ref["tol"]
+    sharp = ref["eta"] <= 1e-10
+    size = P.size
+    mf = 5 if case["m_fact"] is None else case["m_fact"]
+    mr = 100 if case["max_rep"] is None else case["max_rep"]
+    if mr > 3:
+        # (almost) unlimited restarts: m stays reachable so that the doubling of m_fact ends after a few rounds
+        n_eff = int(np.sum(P >= 1.0 / (4 * size)))
+        m = min(case["m"], max(1, n_eff // 2))
+    else:
+        # few restarts: any m, also more than the tensor has (non-zero) entries; giving up is then the documented outcome.
+        # At most 2**(mr+2) - 1 times m_fact*m candidate rows are drawn before that.
+        m = max(1, min(case["m"], size + 2, DRAW_BUDGET // (mf * (2 ** (mr + 2) - 1))))
+    ctx.label(f"m_fact:{case['m_fact']}", f"max_rep:{case['max_rep']}", "m:" + case["m_kind"], "spelling:" + case["spelling"],
+              "seed:" + case["kind"])
+    if m >= 2 and float((P * P).sum()) * m * (m - 1) / 2 >= 0.5:
+        ctx.label("collisions_expected")
+    if m > size:
+        ctx.label("m>size")
+    seed = make_seed(case["kind"], case["seed"])          # a Generator object is reused by the repeated calls, an int is not
+    Pl = np.sort(np.maximum(P - tol, 0.0).ravel())[::-1]
+    returned = 0
+    for _ in range(case["repeat"]):
+        I = call_unique(ctx, Y, m_arg(m, case["m_kind"]), seed, case["m_fact"], case["max_rep"], case["spelling"])
+        if I is None:
+            ctx.label("outcome:cannot")
+            # giving up means that EVERY round failed, the first one included: m_fact*m i.i.d. rows with fewer than m distinct ones.
+            # If the m most probable entries are all hit with probability >= 1 - 1e-12 in that round, giving up is no valid outcome.
+            if m <= size:
+                miss = float(np.sum((1.0 - Pl[:m]) ** (mf * m)))
+                ctx.check(miss > DELTA, "sample_square(unique=True) gave up although m_fact*m draws contain m distinct rows "
+                          "with probability >= 1 - 1e-12", m=m, m_fact=mf, max_rep=mr, p_fail_bound=miss)
+            continue
+        returned += 1
+        ctx.label("outcome:returned")
+        check_index_array(ctx, I, m, n, "sample_square(unique=True)")
+        ctx.check(len({tuple(row) for row in I.tolist()}) == m, "sample_square(unique=True) returned repeated rows",
+                  rows=I, m=m, m_fact=case["m_fact"], max_rep=case["max_rep"])
+        bad = P[tuple(I.T)] <= 2 * tol[tuple(I.T)]
+        ctx.check(not (sharp and np.any(bad)), "sample_square(unique=True) returned a multi-index whose entry is zero "
+                  "(probability below 1e-18)", row=I[int(np.argmax(bad))])
+    ctx.inner(case["repeat"] - 1)
+    ctx.nontrivial(nontrivial_tt(spec) and m >= 2 and returned > 0)
 
 
 # =========================================================================================== sample_rand, sample_lhs
@@ -963,8 +1168,12 @@ def prop_tt_all_n(case, ctx):
 def gof_cases(draw, tier):
     which = draw(st.sampled_from(["sample", "square"]))
     sm = 24 if tier == "quick" else 48
-    Y = draw(nn_specs(tier, size_max=sm)) if which == "sample" else draw(sq_specs(tier, size_max=sm))
-    return {"which": which, "Y": Y, "m": 1500 if tier == "quick" else 12000, "seed": draw(gen.seeds),
+    scale = None
+    if which == "sample":
+        Y = draw(nn_specs(tier, size_max=sm))
+    else:
+        Y, scale = draw(sq_scaled(tier, size_max=sm))
+    return {"which": which, "Y": Y, "scale": scale, "m": 1500 if tier == "quick" else 12000, "seed": draw(gen.seeds),
             "kind": draw(st.sampled_from(SEED_KINDS)), "default_unsert": draw(st.booleans())}
 
 
@@ -986,7 +1195,7 @@ def prop_gof(case, ctx):
         bias = 1e-9 + (n[0] * 1e-10 / ref["S"] * (1 + 1e-9) if use_default else 0.0)
         name = "sample"
     else:
-        Y, ref = sq_prepare(ctx, spec)
+        Y, ref = sq_prepare(ctx, spec, case.get("scale"))
         if ref is None:
             return
         I = ctx.lib(teneva.sample_square, Y, m, False, seed)
@@ -1011,6 +1220,7 @@ SUBCHECKS = [
     Sub("chains", prop_chains, strategy=chain_cases, quick=250, thorough=3000),
     Sub("history", prop_history, strategy=history_cases, quick=70, thorough=800),
     Sub("structure_tt", prop_structure_tt, strategy=structure_tt_cases, quick=150, thorough=2000),
+    Sub("unique_args", prop_unique_args, strategy=unique_cases, quick=120, thorough=1500),
     Sub("grid", prop_grid, strategy=grid_cases, quick=250, thorough=4000),
     Sub("lhs_all_n", prop_lhs_all_n, enumerate=lhs_all_n_cases, exhaustive=True),
     Sub("sample_tt", prop_sample_tt, strategy=tt_cases, quick=120, thorough=1500),
